@@ -13,8 +13,10 @@ Rects == {<<2, 2, 10, 10>>, <<14, 2, 22, 10>>, <<2, 14, 10, 22>>, <<14, 14, 22, 
 Pts   == {<<12, 1>>, <<1, 12>>, <<23, 12>>, <<12, 23>>, <<12, 12>>}
 \* junction positions: never on a free endpoint (a junction is an obstacle; an endpoint on its centre is degenerate) -- odd coordinate, even moves
 JPts  == {<<12, 11>>, <<11, 12>>, <<13, 12>>}
-\* pin catalogue: <<class, xq, yq (proportional, quarters), inside, dirs, exclusive>>
-PinCat == {<<1, 0, 2, 0, 4, 1>>, <<1, 4, 2, 0, 8, 1>>, <<1, 2, 0, 0, 1, 0>>, <<2, 2, 4, 0, 2, 0>>, <<2, 2, 2, 0, 15, 0>>, <<1, 2, 2, 1, 15, 1>>}
+\* pin catalogue: <<class, x offset, y offset, inside, dirs, exclusive, proportional>>: proportional offsets in quarters of the shape;
+\* absolute offsets in units from the top-left corner, 0 = ATTACH_POS_MIN_OFFSET, -1 = ATTACH_POS_MAX_OFFSET (the far edge, whatever the size)
+PinCat == {<<1, 0, 2, 0, 4, 1, 1>>, <<1, 4, 2, 0, 8, 1, 1>>, <<1, 2, 0, 0, 1, 0, 1>>, <<2, 2, 4, 0, 2, 0, 1>>, <<2, 2, 2, 0, 15, 0, 1>>, <<1, 2, 2, 1, 15, 1, 1>>,
+           <<1, -1, 4, 0, 8, 0, 0>>, <<2, 4, -1, 1, 2, 0, 0>>, <<2, 0, 3, 0, 4, 1, 0>>}
 Moves == {<<2, 0>>, <<0, -2>>, <<-2, 2>>}
 VARIABLES shp, rect, pins, jn, jpos, cn, cend, txn, hreg, fresh, hist
 vars == <<shp, rect, pins, jn, jpos, cn, cend, txn, hreg, fresh, hist>>
@@ -51,7 +53,7 @@ NewShape(s, r) == /\ shp[s] = "none" /\ RectFree(s, r) /\ rect' = [rect EXCEPT !
                   /\ After([shp EXCEPT ![s] = "queued"], jn, cn, pins, cend, {s}) /\ UNCHANGED <<jpos, txn>> /\ Op(<<1, s, r[1], r[2], r[3], r[4]>>)
 NewPin(s, p) == /\ Exists(shp[s]) /\ <<s, p>> \notin pins
                 /\ pins' = pins \cup {<<s, p>>} /\ UNCHANGED <<shp, rect, jn, jpos, cn, cend, txn, hreg, fresh>>
-                /\ Op(<<2, s, p[1], p[2], p[3], 1, p[4], p[5], p[6]>>)
+                /\ Op(<<2, s, p[1], p[2], p[3], p[7], p[4], p[5], p[6]>>)
 NewJunction(j, p) == /\ jn[j] = "none" /\ jpos' = [jpos EXCEPT ![j] = p]
                      /\ After(shp, [jn EXCEPT ![j] = "queued"], cn, pins, cend, {j}) /\ UNCHANGED <<rect, txn>> /\ Op(<<3, j, p[1], p[2]>>)
 NewConn(c, e1, e2) == /\ cn[c] = "none" /\ EndOK(e1) /\ EndOK(e2) /\ e1 # e2
